@@ -86,10 +86,127 @@ def _tests(xnp):
     T["solve"] = sv
     T["solvetri"] = st
     T["lstsq"] = [(f"{k}", (a, rng.standard_normal((a.shape[0], 2))), lambda a_, b_: np.linalg.pinv(a_.astype(np.promote_types(a_.dtype, np.float64))) @ b_) for k, a in _mats(rng, 5, 3)]
+    # full rank but ill conditioned (cond 1e7): the minimum-norm least-squares solution keeps every singular direction (only a rank decision at machine precision is allowed)
+    for cplx in (False, True):
+        for (m_, n_) in ((8, 4), (4, 7), (4, 4)):
+            r_ = min(m_, n_)
+            U_ = np.linalg.qr(rng.standard_normal((m_, r_)) + (1j * rng.standard_normal((m_, r_)) if cplx else 0))[0]
+            V_ = np.linalg.qr(rng.standard_normal((n_, r_)) + (1j * rng.standard_normal((n_, r_)) if cplx else 0))[0]
+            s_ = np.array([1.0, 1e-2, 1e-4, 1e-7])[:r_]
+            A_ = (U_ * s_) @ V_.conj().T
+            xt = V_ @ (rng.standard_normal((r_, 2)) + (1j * rng.standard_normal((r_, 2)) if cplx else 0))
+            T["lstsq"].append((f"ill-conditioned {m_}x{n_} {'complex' if cplx else 'real'} (singular values 1 .. 1e-7)", (A_, A_ @ xt),
+                               (lambda a_, b_, U_=U_, V_=V_, s_=s_: V_ @ ((U_.conj().T @ b_) / s_[:, None])), None, 1e-5))
+
+    # factorisations: checked through their defining equations (the factors are not unique)
+    def herm(x):
+        return x.conj().T
+
+    def close(a_, b_, tol):
+        return a_.shape == b_.shape and np.allclose(a_, b_, rtol=tol, atol=tol * max(1.0, float(np.max(np.abs(b_))) if b_.size else 1.0))
+
+    def tolof(*xs):
+        return 1e-4 if any(np.asarray(x).dtype in (np.float32, np.complex64) for x in xs) else 1e-9
+
+    def chol_pred(L, A_):
+        t = tolof(A_)
+        if np.any(np.abs(np.triu(L, 1)) > 0):
+            return "factor is not lower triangular"
+        if np.any(np.abs(np.imag(np.diag(L))) > t) or np.any(np.real(np.diag(L)) <= 0):
+            return "diagonal of the factor is not real positive"
+        if not close(L @ herm(L), A_, t):
+            return f"L L^H differs from A by {np.max(np.abs(L @ herm(L) - A_)):.3e}"
+        if np.iscomplexobj(L) != np.iscomplexobj(A_):
+            return "dtype class changed"
+    hpd = []
+    for k, a in _mats(rng, 4, 4):
+        hpd.append((k, a @ herm(a) + 4 * np.eye(4, dtype=a.dtype)))
+    T["cholesky"] = [(f"A {k}", (A_,), None, chol_pred) for k, A_ in hpd]
+
+    def lu_pred(res, A_):
+        p, L, U = res
+        n_ = A_.shape[0]
+        t = tolof(A_)
+        if sorted(np.asarray(p).tolist()) != list(range(n_)):
+            return "p is not a permutation of 0..n-1"
+        if np.any(np.abs(np.triu(L, 1)) > 0) or np.any(np.abs(np.tril(U, -1)) > 0):
+            return "L is not lower / U is not upper triangular"
+        if not close(np.eye(n_)[np.asarray(p)] @ L @ U, A_, t):
+            return "I[p] L U differs from A (the contract of Permutation(p) @ L @ U)"
+    T["lu"] = [(f"A {k}", (a,), None, lu_pred) for k, a in _mats(rng, 4, 4)] + [("pivot cycle of length 3", (np.array([[0., 1, 2], [3, 4, 5.5], [6, 7.5, 8]])[[1, 2, 0]],), None, lu_pred)]
+
+    def svd_pred(res, A_, full):
+        U, s_, V = res
+        t = tolof(A_)
+        r_ = min(A_.shape)
+        if np.any(np.asarray(s_) < 0) or np.any(np.diff(np.asarray(s_)) > t):
+            return "singular values are not non-negative and descending"
+        if not close(herm(U) @ U, np.eye(U.shape[1]), t) or not close(herm(V) @ V, np.eye(V.shape[1]), t):
+            return "a factor does not have orthonormal columns"
+        if full and (U.shape != (A_.shape[0],) * 2 or V.shape != (A_.shape[1],) * 2):
+            return "full_matrices=True does not return square factors"
+        if not close((U[:, :r_] * s_) @ herm(V[:, :r_]), A_, t):
+            return "U diag(s) V^H differs from A (V is returned, not V^H)"
+    T["svd"] = [(f"A {k} {shp} full={full}", (a, full), None, svd_pred) for full in (True, False) for shp in ((5, 3), (3, 5), (4, 4)) for k, a in _mats(rng, *shp, kinds=("f64", "c128", "view"))]
+
+    def eig_pred(res, A_):
+        w, V = res
+        t = 1e-7
+        if not (np.iscomplexobj(w) and np.iscomplexobj(V)):
+            return "eig does not return complex arrays"
+        if not close(A_ @ V, V * w, t):
+            return "A V differs from V diag(w)"
+        if abs(np.linalg.det(V)) < 1e-8:
+            return "eigenvectors are not independent"
+    T["eig"] = [(f"A {k}", (a,), None, eig_pred) for k, a in _mats(rng, 4, 4, kinds=("f64", "c128", "F"))] + [("symmetric", (hpd[0][1],), None, eig_pred)]
+
+    def eigh_pred(res, A_):
+        w, V = res
+        t = tolof(A_)
+        if np.iscomplexobj(w) or np.any(np.diff(w) < -t):
+            return "eigenvalues are not real ascending"
+        if not close(herm(V) @ V, np.eye(V.shape[1]), t) or not close(A_ @ V, V * w, t * 10):
+            return "V is not unitary or A V differs from V diag(w)"
+    T["eigh"] = [(f"A {k}", (A_,), None, eigh_pred) for k, A_ in hpd]
+
+    def qr_pred(res, A_, full):
+        Q, R = res
+        t = tolof(A_)
+        if not close(herm(Q) @ Q, np.eye(Q.shape[1]), t) or np.any(np.abs(np.tril(R, -1)) > t) or not close(Q @ R, A_, t):
+            return "Q R differs from A, Q is not orthonormal or R is not upper triangular"
+    T["qr"] = [(f"A {k} full={full}", (a, full), None, qr_pred) for full in (False, True) for k, a in _mats(rng, 5, 3, kinds=("f64", "c128"))]
+
+    def sld_pred(res, A_):
+        sg, la = res
+        d = np.linalg.det(A_.astype(np.promote_types(A_.dtype, np.float64)))
+        if not np.isclose(sg * np.exp(la), d, rtol=1e-4 if A_.dtype in (np.float32,) else 1e-9):
+            return "sign * exp(logabs) differs from the determinant"
+    T["slogdet"] = [(f"A {k}", (a,), None, sld_pred) for k, a in _mats(rng, 4, 4)]
+    T["inv"] = [(f"A {k}", (a + 4 * np.eye(4, dtype=a.dtype),), None, lambda got, A_: None if close(got @ A_, np.eye(4), tolof(A_)) else "inv(A) A differs from I") for k, a in _mats(rng, 4, 4)]
+
+    # allocation: every call returns a new array (a shared cached buffer would let one caller's in-place edit change another operator's matrix)
+    def fresh_pred(maker):
+        def pred(got, *args):
+            a1 = maker(*args)
+            if np.shares_memory(a1, got):
+                return "two calls return the same buffer"
+            want = np.array(got, copy=True)
+            a1[...] = 7
+            a2 = maker(*args)
+            if not np.array_equal(a2, want):
+                return "the result of a later call depends on an in-place edit of an earlier result"
+        return pred
+    T["eye"] += [(f"fresh n={n}", (n, None, np.float64, None), None, fresh_pred(lambda n_, m_, dt_, dev: xnp.eye(n_, m_, dtype=dt_, device=dev))) for n in (3,)]
+    T["zeros"] = [("fresh", ((2, 3), np.float64, None), None, fresh_pred(lambda shp, dt_, dev: xnp.zeros(shp, dt_, dev)))]
+    T["ones"] = [("fresh", ((2, 3), np.float64, None), None, fresh_pred(lambda shp, dt_, dev: xnp.ones(shp, dt_, dev)))]
     return T
 
 
 CALL = {
+    "svd": lambda f, a, full: f(a, full_matrices=full),
+    "qr": lambda f, a, full: f(a, full_matrices=full),
+    "zeros": lambda f, shp, dt, dev: f(shp, dt, dev),
+    "ones": lambda f, shp, dt, dev: f(shp, dt, dev),
     "solvetri": lambda f, T_, b_, lo: f(T_, b_, lower=lo),
     "concat": lambda f, xs, ax: f(xs, axis=ax),
     "canonical": lambda f, loc, shp, dt, dev: f(loc, shp, dt, dev),
@@ -135,7 +252,10 @@ def run(chk, prop, names=None, frame_only=False):
             continue
         bad = []
         n_run = 0
-        for label, args, ref in cases:
+        for case in cases:
+            label, args, ref = case[:3]
+            pred = case[3] if len(case) > 3 else None
+            case_tol = case[4] if len(case) > 4 else None
             snap = _snap(args)
             try:
                 got = CALL[name](f, *args) if name in CALL else f(*args)
@@ -146,12 +266,20 @@ def run(chk, prop, names=None, frame_only=False):
             if not _same(args, snap):
                 bad.append(f"{label}: an input array was modified by the call")
                 continue
-            if frame_only:
+            if frame_only and not (pred is not None and label.startswith("fresh")):
+                continue
+            if pred is not None:
+                try:
+                    msg = pred(got, *snap)
+                except Exception as e:
+                    msg = f"result has an unexpected form ({type(e).__name__}: {str(e)[:100]})"
+                if msg:
+                    bad.append(f"{label}: {msg}")
                 continue
             want = ref(*snap)
             got = np.asarray(got)
             want = np.asarray(want)
-            tol = 1e-4 if (got.dtype in (np.float32, np.complex64) or want.dtype in (np.float32, np.complex64)) else 1e-9
+            tol = case_tol or (1e-4 if (got.dtype in (np.float32, np.complex64) or want.dtype in (np.float32, np.complex64)) else 1e-9)
             if got.shape != want.shape or not np.allclose(got, want, rtol=tol, atol=tol):
                 bad.append(f"{label}: values differ from the reference (max deviation {np.max(np.abs(got - want)) if got.shape == want.shape else 'shape ' + str(got.shape)})")
             elif np.iscomplexobj(want) != np.iscomplexobj(got):
